@@ -70,7 +70,22 @@ class MultiRepr:
         return "<%s [[1, 2],\n       [3, 4]]\r\n>" % self.tok
 
 
+class FalsyRepr:
+    """a root / leaf that is falsy (an empty container-like task group, a not yet started greenlet): still a root"""
+
+    def __init__(self, tok):
+        self.tok = tok
+
+    def __len__(self):
+        return 0
+
+    def __repr__(self):
+        return "<falsy %s>" % self.tok
+
+
 def _text(tok, as_obj):
+    if tok is not None and as_obj and not ML_TEXT[0] and tok[-1] in "02468":
+        return FalsyRepr(tok)
     if tok is None or not ML_TEXT[0]:
         return tok
     if as_obj:
@@ -131,6 +146,23 @@ def build_ctx(c):
     return ctx
 
 
+def error_messages(err):
+    """the first line of the message of every exception reachable from a Stack.error through __cause__, __context__ and
+    the members of exception groups: a rendering of the error that is complete mentions every one of them"""
+    seen, out, todo = set(), [], [err]
+    while todo:
+        e = todo.pop()
+        if e is None or id(e) in seen:
+            continue
+        seen.add(id(e))
+        msg = (str(e.args[0]) if e.args else "").splitlines()
+        if msg and msg[0]:
+            out.append(msg[0])
+        todo.extend([e.__cause__, e.__context__ if not e.__suppress_context__ else None])
+        todo.extend(getattr(e, "exceptions", ()) or ())
+    return sorted(set(out))
+
+
 def combos():
     for a in (False, True):
         for sc in (False, True):
@@ -151,6 +183,7 @@ def run_c18(req):
             out["fmt"]["%d%d%d" % (a, sc, sh)] = st.format(ascii_only=a, show_contexts=sc, show_hidden_frames=sh)
         out["str"] = str(st)
         out["default"] = st.format()
+        out["error_messages"] = error_messages(st.error)
         # Frame.format / Context.format / str() of parts
         parts = []
         for f in st.frames[:2]:
@@ -238,6 +271,7 @@ def _run_c19(req):
                 "summ_fmt": st.as_stdlib_summary(show_contexts=sc).format() if st.frames else [],
             }
         out["flat_default"] = st.format_flat()
+        out["error_messages"] = error_messages(st.error)
         # per-frame methods
         fr = []
         for f in st.frames[:3]:
